@@ -289,7 +289,10 @@ def rules_cascade(run):
     for x in rz:
         at = guard_atoms(x)
         for a in at:
-            if a[0] == 'in' and a[1] == npar and a[2].replace(' ', '') in ('[%s]+self.descendants_for(%s)' % (nm, nm), 'self.descendants_for(%s)+[%s]' % (nm, nm)):
+            rhs = a[2]
+            if rhs.isidentifier():
+                rhs = q.resolved_text(M, ast.Name(id=rhs, ctx=ast.Load()))
+            if a[0] == 'in' and a[1] == npar and rhs.replace(' ', '') in ('[%s]+self.descendants_for(%s)' % (nm, nm), 'self.descendants_for(%s)+[%s]' % (nm, nm)):
                 good = True
     run.check(good, r, mv.short, 'refuses to move a state into itself or one of its descendants', 'missing test', M)
     mv_alias = [x.targets[0].id for x in q.walk(M, False) if isinstance(x, ast.Assign) and isinstance(x.targets[0], ast.Name) and q.unparse(x.value) == 'self.state_for(%s)' % nm]
